@@ -4,7 +4,7 @@
 set -e
 cd "$(dirname "$0")"
 cd coq
-coq_makefile -f _CoqProject -o Makefile >/dev/null
+python3 ../lib/mkcoqproject.py >/dev/null; coq_makefile -f _CoqProject -o Makefile >/dev/null
 timeout 3000 make -j16 >/dev/null 2>../out_setup_coq.log || { mkdir -p ../out; mv ../out_setup_coq.log ../out/setup_coq.log; echo "coq build failed, see out/setup_coq.log"; tail -20 ../out/setup_coq.log; exit 1; }
 rm -f ../out_setup_coq.log
 cd ..
